@@ -471,7 +471,23 @@ def modelMaxN (algo : String) : Nat :=
   | "ckk" => 3000
   | _ => 21000
 
+/-- Coordinate scales at which the squares of the coordinates can overflow `f64`: the oriented
+bounding box (inertia sums) of Rib, HilbertCurve and ZCurve is outside the integer model there
+(known finding K8); the oracle still judges the run. -/
+def hugeCoordScale (s : String) : Bool :=
+  s == "1e150" || s == "1e154" || s == "1e200" || s == "1e300"
+
+def usesObb (algo : String) : Bool :=
+  algo == "rib2" || algo == "rib3" || algo == "hilbert2" || algo == "hilbert3" ||
+  algo == "zcurve2" || algo == "zcurve3"
+
 def handle (toks : List String) : String :=
+  match toks with
+  | "cscale" :: s :: algo :: _ =>
+    if hugeCoordScale s && usesObb algo then "skip huge-coordinates (squares may overflow f64; oracle only)"
+    else handle' toks
+  | _ => handle' toks
+where handle' (toks : List String) : String :=
   let toks := match toks with
     | "reuse-twice" :: r => r
     | "reuse-buf" :: r => r
